@@ -177,7 +177,8 @@ theorem extFold_kn (snap : State) (hsn : ∀ x d, snap.dget x = some d → WF d)
 /-- one labelling step `k == x` -/
 theorem label_step {st st' : State} (w : WFS st) (hi : Inv st) (hz : NoZ st) (hdk : DK st) (k : Int) (x : Nat)
     (h : unify ord st (Term.num k) (.var x) = .ok st') :
-    WFS st' ∧ Inv st' ∧ NoZ st' ∧ DK st' ∧ Live st' ∧ KN st st' ∧ KeysMono st st' ∧ SubS (fun _ => False) st st' := by
+    WFS st' ∧ Inv st' ∧ NoZ st' ∧ DK st' ∧ Live st' ∧ KN st st' ∧ KeysMono st st' ∧ SubS (fun _ => False) st st' ∧
+      st'.σ x = Term.num k := by
   have r := unify_sem (I := NoI) ho (iok_noI st) w hi (Term.num k) (.var x)
   rw [h] at r
   obtain ⟨d', z', u', m'⟩ := unify_dk ho w hi hz hdk h
@@ -189,17 +190,20 @@ theorem label_step {st st' : State} (w : WFS st) (hi : Inv st) (hz : NoZ st) (hd
     rcases hshape σ' e hu with ⟨_, rfl⟩ | ⟨y, _, _, rfl⟩
     · cases hp
     · simp only [List.mem_singleton] at hp; subst hp; rfl)
-  refine ⟨r.1, r.2.1, z', d', hl, ?_, hm, u'⟩
+  suffices hkn : KN st st' ∧ st'.σ x = Term.num k from ⟨r.1, r.2.1, z', d', hl, hkn.1, hm, u', hkn.2⟩
   -- the substitution: the labelling binding, then propagation
   unfold unify at h
   split at h
   · cases h
   · cases h
   · rename_i σ' e hu
-    obtain ⟨s', x', _⟩ := unifyF_sound _ _ _ _ _ _ _ w.solved hu
+    obtain ⟨s', x', un⟩ := unifyF_sound _ _ _ _ _ _ _ w.solved hu
     obtain ⟨hbnd, _, _⟩ := unifyF_ext_full _ _ _ _ _ _ w.solved hu
     have w0 : WFS { st with σ := σ' } := ⟨s', w.dnodup, w.dwf, w.nodist⟩
     have i0 : Inv { st with σ := σ' } := SameStore.inv ⟨rfl, rfl, rfl, rfl, rfl⟩ hi
+    have hσx : σ' x = Term.num k := by
+      have : apply σ' (Term.num k) = apply σ' (.var x) := un
+      simpa [Term.num, apply] using this.symm
     have k0 : KN st { st with σ := σ' } := by
       refine ⟨x', fun y hy => ?_, fun y _ _ hd => hd⟩
       rcases hshape σ' e hu with ⟨rfl, _⟩ | ⟨y0, hy0, rfl, _⟩
@@ -221,7 +225,14 @@ theorem label_step {st st' : State} (w : WFS st) (hi : Inv st) (hz : NoZ st) (hd
       (hbnd p (hperm.mem_iff.1 hp)).2 (r1.2.1.mono _ e')
     obtain ⟨_, _, k2⟩ := extFold_kn ho s1 (fun x d hd => r1.1.dwf _ (dget_mem hd)) (ord.ps e) s1 s2 r1.1 i1 hkb e2
     have := (k0.trans (KN.of_keeps r1.2.1)).trans k2
-    exact ⟨this.ext, this.numonly, this.dom⟩
+    have k12 : KN { st with σ := σ' } s2 := (KN.of_keeps r1.2.1).trans k2
+    refine ⟨⟨this.ext, this.numonly, this.dom⟩, ?_⟩
+    have e := k12.ext (.var x)
+    simp only [apply] at e
+    show s2.σ x = Term.num k
+    rw [← e]
+    show apply s2.σ (σ' x) = Term.num k
+    rw [hσx]; simp [Term.num, apply]
 
 end Top
 end Pv
@@ -259,7 +270,7 @@ theorem labelAll : ∀ (ls : List (Int × Nat)) (st st' : State), WFS st → Inv
   | l :: ls, st, st', w, hi, hz, hdk, hl, h => by
     simp only [labelAtoms, List.map_cons, postAllF] at h
     obtain ⟨s1, e1, h⟩ := Res.bind_ok h
-    obtain ⟨w1, i1, z1, d1, l1, k1, m1, u1⟩ := label_step ho w hi hz hdk l.1 l.2 e1
+    obtain ⟨w1, i1, z1, d1, l1, k1, m1, u1, _⟩ := label_step ho w hi hz hdk l.1 l.2 e1
     obtain ⟨w2, i2, z2, d2, l2, k2, m2, u2⟩ := labelAll ls s1 st' w1 i1 z1 d1 l1 h
     exact ⟨w2, i2, z2, d2, l2, k1.trans k2, m1.trans m2, u1.trans u2⟩
 
